@@ -317,7 +317,10 @@ class LabReplay:
                 new_objs.update(out.new)
                 self.states[post_key] = {"objs": new_objs, "depth": k, "parent": (pre_key, ev), "fps": None,
                                          # amounts derived from a stated concentration carry the library's rounding of it
-                                         "inexact": st.get("inexact", False) or ev["op"] in ("dilute", "create_solution", "create_solution_from")}
+                                         "inexact": st.get("inexact", False) or ev["op"] in ("dilute", "create_solution", "create_solution_from"),
+                                         # a take-everything transfer leaves quantum / available of what was there (see mon_c02):
+                                         # the emptied well holds a float residue, not nothing
+                                         "residue": st.get("residue", False) or (ev["op"] == "transfer" and ev.get("cls") == "boundary" and ev["res"] == "ok")}
                 self.counts["states_built"] += 1
         else:
             self.counts["diverged"] += 1
@@ -421,6 +424,8 @@ class LabReplay:
         if ev["res"] != "ok":
             if cls == "shape_mismatch":
                 return          # owned by C07 (any exception is a rejection)
+            if cls in ("no_solute", "unreachable") and ctx["st"].get("residue"):
+                return          # "the solute is absent" is not a fact about a well that was emptied by a ratio (float residue)
             if overlapping and cls != "negative":
                 return
             if out.ok:
